@@ -61,6 +61,29 @@ CHECKS = {
         note=TB + '; EC materials (pyasn1 OID) and whole-history stability are bounded components',
         technique='contract-based deductive verification: VCs from the Python AST, externals uninterpreted; z3/cvc5',
         design_ref='6 (C18)'),
+    'C06': dict(
+        category='proof',
+        text='PGPKey.unlock (context manager) is verified on every exit (normal, exception in the with block, wrong passphrase at any '
+             'component): protected components hold no cleartext secret afterwards, unprotected components are neither un-protected nor '
+             'wiped, the block is entered only with every protected component open; encrypt_keyblob (RSA/DSA/EdDSA material): usage 254, '
+             'iterated+salted, fresh IV (block size) and salt (8) from the randomness stream, plaintext = secret MPIs || SHA-1, secret fields '
+             'wiped; decrypt_keyblob: accepts iff the SHA-1 trailer / 16-bit checksum matches, per-algorithm variants assign nothing on failure '
+             'and recover the MPIs in order; clear() zeroes exactly the secret fields; protected material serialises to public MPIs || S2K || '
+             'ciphertext only (non-interference).',
+        note=TB + '; ciphers, SHA-1, os.urandom are externals (uninterpreted / ghost stream); derive_key and MPI decoding are used through their '
+                  'contracts (C12, C09); operation interleavings are a bounded component',
+        technique='contract-based deductive verification: VCs from the Python AST, context-manager exits enumerated symbolically, callee '
+                  'contracts as hooks, z3/cvc5',
+        design_ref='6 (C06)'),
+    'C20': dict(
+        category='proof',
+        text='PGPMessage.__iter__ on a signed literal message is verified with two inductive loop invariants over an unknown number of '
+             'signatures: one-pass packets in reverse order, flag 1 only on the last, literal (and MDC), signatures in order; make_onepass '
+             'names type/hash/pubalg/issuer with the flag clear; the one-pass packet layout equals RFC 4880 5.4; __bytearray__ wraps the whole '
+             'sequence in one compressed packet iff compression is set.',
+        note=TB + '; content/metadata round trips and compression externals are a bounded component',
+        technique='contract-based deductive verification with inductive loop invariants over abstract sequences; z3/cvc5',
+        design_ref='6 (C20)'),
 }
 
 PENDING_REASON = 'check under construction in this session: no contract-based check is registered yet (see DESIGN.md section 6 for the plan)'
